@@ -154,7 +154,7 @@ func settleGoroutines(base int) string {
 	}
 }
 
-func cancelRunVM(prog compiler.CompileOutput, limits runtime.CoreLimits, k int64, trace int) (res string) {
+func cancelRunVM(prog compiler.CompileOutput, limits runtime.CoreLimits, k int64, trace int, abs bool) (res string) {
 	rec := &cancelRec{}
 	pc := newPollCtx()
 	var ctx context.Context = pc
@@ -162,6 +162,9 @@ func cancelRunVM(prog compiler.CompileOutput, limits runtime.CoreLimits, k int64
 	base := goruntime.NumGoroutine()
 	outcome := ""
 	var p0 int64
+	if abs && k > 0 {
+		pc.k.Store(k) // counted from the very first poll, VM construction included (V29)
+	}
 	func() {
 		defer func() {
 			if r := recover(); r != nil {
@@ -173,7 +176,7 @@ func cancelRunVM(prog compiler.CompileOutput, limits runtime.CoreLimits, k int64
 		pc.mu.Lock()
 		pc.onPoll = func(int64) { rec.poll() }
 		pc.mu.Unlock()
-		if k > 0 {
+		if k > 0 && !abs {
 			pc.k.Store(p0 + k)
 		}
 		vm.SpawnAsync(runtime.MainFn(), nil, nil, nil)
@@ -278,6 +281,21 @@ func pollsOf(run string) int64 {
 	return n
 }
 
+// allKs: 1, 1+stride, … up to min(P, maxk), then P (the last poll) and P+1 (after completion).
+func allKs(p, maxk, stride int64) []int64 {
+	if stride < 1 {
+		stride = 1
+	}
+	list := []int64{}
+	for k := int64(1); k <= p && k <= maxk; k += stride {
+		list = append(list, k)
+	}
+	if p > 0 && (len(list) == 0 || list[len(list)-1] != p) {
+		list = append(list, p)
+	}
+	return append(list, p+1)
+}
+
 func asmSx(prog compiler.CompileOutput) *Sx {
 	names := []string{}
 	for n := range prog.Functions {
@@ -313,7 +331,9 @@ func cancelLine(line string) string {
 	ks := []int64{}
 	asm := false
 	fullRun := true
-	trace := 4000
+	abs := false
+	stride := int64(1)
+	trace := 100000
 	maxk := int64(1 << 30)
 	for _, it := range sx.List[1:] {
 		switch it.Tag() {
@@ -342,6 +362,10 @@ func cancelLine(line string) string {
 			asm = it.Arg(0).Bool()
 		case "full":
 			fullRun = it.Arg(0).Bool()
+		case "abs":
+			abs = it.Arg(0).Bool()
+		case "stride":
+			stride = it.Arg(0).Int()
 		case "trace":
 			trace = int(it.Arg(0).Int())
 		}
@@ -372,18 +396,15 @@ func cancelLine(line string) string {
 			}
 			full := "SKIPPED polls=0"
 			if fullRun {
-				full = cancelRunVM(prog, limits, 0, trace)
+				full = cancelRunVM(prog, limits, 0, trace, false)
 			}
 			parts = append(parts, "VM="+full)
 			list := ks
 			if all {
-				list = nil
-				for k := int64(1); k <= pollsOf(full) && k <= maxk; k++ {
-					list = append(list, k)
-				}
+				list = allKs(pollsOf(full), maxk, stride)
 			}
 			for _, k := range list {
-				parts = append(parts, "VMk="+cancelRunVM(prog, limits, k, 0))
+				parts = append(parts, "VMk="+cancelRunVM(prog, limits, k, 0, abs))
 			}
 			if asm {
 				parts = append(parts, "ASM="+asmSx(prog).String())
@@ -396,10 +417,7 @@ func cancelLine(line string) string {
 			parts = append(parts, "TREE="+full)
 			list := ks
 			if all {
-				list = nil
-				for k := int64(1); k <= pollsOf(full) && k <= maxk; k++ {
-					list = append(list, k)
-				}
+				list = allKs(pollsOf(full), maxk, stride)
 			}
 			for _, k := range list {
 				parts = append(parts, "TREEk="+cancelRunTree(analyzed, limits.CallStackMaxSize, k, 0))
